@@ -61,7 +61,7 @@ func vReset(t *vTape) {
 	vout = &vOutcome{}
 	vseq = map[string]int{}
 	vstart = time.Now()
-	vbaseG = runtime.NumGoroutine()
+	vbaseG = runtime.NumGoroutine() + 1 // + the goroutine the harness itself runs on
 	vErrSeq = 0
 }
 
@@ -300,7 +300,7 @@ func vTimers() int                                       { return -1 }
 func vSections(mu *sync.RWMutex) int                     { return -1 }
 func vPick(idx int, opts ...any) any { return opts[idx] }
 func vRaceChecked(p any) {}
-func vThreadsCreated() int { return -1 }
+func vThreadsCreated() int { return runtime.NumGoroutine() - vbaseG }
 func vLockFree(mu *sync.RWMutex) bool {
 	if mu.TryLock() {
 		mu.Unlock()
